@@ -513,3 +513,151 @@ func AuthClosure(tok m.Token, az m.Authz) []m.Pred {
 	rules := append(append([]m.Rule{}, az.Rules...), tok.Blocks[0].Rules...)
 	return ref.LFP(facts, rules).Facts.List()
 }
+
+// instantiate replaces the variables of a predicate by constants of the column
+// type the schema gives (or by drawn constants when the schema is silent).
+func (s Schema) instantiate(t *rapid.T, p m.Pred, env map[string]m.Term) m.Pred {
+	var cols []Type
+	for _, sig := range s.Preds {
+		if sig.Name == p.Name && len(sig.Cols) == len(p.Terms) {
+			cols = sig.Cols
+		}
+	}
+	out := m.Pred{Name: p.Name}
+	for i, x := range p.Terms {
+		if x.K != m.KVar {
+			out.Terms = append(out.Terms, x)
+			continue
+		}
+		if v, ok := env[x.S]; ok {
+			out.Terms = append(out.Terms, v)
+			continue
+		}
+		ty := TInt
+		if cols != nil {
+			ty = cols[i]
+		} else {
+			ty = rapid.SampledFrom(ScalarTypes).Draw(t, "inst.ty")
+		}
+		v := s.P.DrawConst(t, ty, "inst.c")
+		env[x.S] = v
+		out.Terms = append(out.Terms, v)
+	}
+	return out
+}
+
+// DrawAdversarialBlock draws a block a token holder could append in order to
+// turn a refusal into an acceptance: ground facts satisfying the queries of
+// failing checks and of allow policies, rules deriving them, copies of
+// authority facts, facts over default symbols, ill-typed content, and checks.
+func (s Schema) DrawAdversarialBlock(t *rapid.T, tok m.Token, az m.Authz, checkFree bool) m.Block {
+	var targets []m.Rule
+	for _, c := range az.Checks {
+		targets = append(targets, c.Queries...)
+	}
+	for _, b := range tok.Blocks {
+		for _, c := range b.Checks {
+			targets = append(targets, c.Queries...)
+		}
+	}
+	for _, p := range az.Policies {
+		if p.Allow {
+			targets = append(targets, p.Queries...)
+		}
+	}
+	var b m.Block
+	seen := map[string]bool{}
+	addFact := func(f m.Pred) {
+		if f.Ground() && !seen[f.Key()] {
+			seen[f.Key()] = true
+			b.Facts = append(b.Facts, f)
+		}
+	}
+	if rapid.Bool().Draw(t, "adv.full") {
+		// full attack: satisfy one query of every check and of the first allow policy
+		attack := func(qs []m.Rule) {
+			if len(qs) == 0 {
+				return
+			}
+			q := qs[rapid.IntRange(0, len(qs)-1).Draw(t, "adv.fq")]
+			env := map[string]m.Term{}
+			for _, p := range q.Body {
+				addFact(s.instantiate(t, p, env))
+			}
+		}
+		for _, c := range az.Checks {
+			attack(c.Queries)
+		}
+		for _, blk := range tok.Blocks {
+			for _, c := range blk.Checks {
+				attack(c.Queries)
+			}
+		}
+		for _, p := range az.Policies {
+			if p.Allow {
+				attack(p.Queries)
+				break
+			}
+		}
+	}
+	n := rapid.IntRange(0, 3).Draw(t, "adv.n")
+	for i := 0; i < n; i++ {
+		switch k := rapid.IntRange(0, 9).Draw(t, "adv.kind"); {
+		case k <= 3 && len(targets) > 0:
+			// satisfy every body predicate of one target query with ground facts
+			q := targets[rapid.IntRange(0, len(targets)-1).Draw(t, "adv.q")]
+			env := map[string]m.Term{}
+			for _, p := range q.Body {
+				addFact(s.instantiate(t, p, env))
+			}
+		case k <= 5 && len(targets) > 0:
+			// a rule whose head is a predicate a target query asks for
+			q := targets[rapid.IntRange(0, len(targets)-1).Draw(t, "adv.q")]
+			if len(q.Body) == 0 {
+				continue
+			}
+			p := q.Body[rapid.IntRange(0, len(q.Body)-1).Draw(t, "adv.p")]
+			head := s.instantiate(t, p, map[string]m.Term{})
+			r := m.Rule{Head: head}
+			if rapid.Bool().Draw(t, "adv.body") {
+				r.Body = []m.Pred{s.drawBodyPred(t, newScope())}
+			}
+			b.Rules = append(b.Rules, r)
+		case k == 6:
+			// copy of an authority fact or of an authorizer fact
+			src := append(append([]m.Pred{}, tok.Blocks[0].Facts...), az.Facts...)
+			if len(src) > 0 {
+				addFact(src[rapid.IntRange(0, len(src)-1).Draw(t, "adv.copy")])
+			}
+		case k == 7:
+			// facts over default symbols and request-like facts
+			name := rapid.SampledFrom([]string{"right", "resource", "operation", "user", "admin", "role", "query", "policy", "allow"}).Draw(t, "adv.dn")
+			ar := rapid.IntRange(0, 2).Draw(t, "adv.ar")
+			f := m.Pred{Name: name}
+			for j := 0; j < ar; j++ {
+				f.Terms = append(f.Terms, m.Str(rapid.SampledFrom([]string{"read", "write", "file1", "file2", "admin", "a"}).Draw(t, "adv.ds")))
+			}
+			addFact(f)
+		case k == 8 && !checkFree:
+			// arbitrary content, possibly ill-formed
+			switch rapid.IntRange(0, 2).Draw(t, "adv.ill") {
+			case 0:
+				r := s.DrawRule(t, DefaultRuleCfg)
+				r.Exprs = []*m.Expr{UniformFail(t)}
+				b.Rules = append(b.Rules, r)
+			case 1:
+				r := s.DrawRule(t, DefaultRuleCfg)
+				r.Head.Terms = append(r.Head.Terms, m.Var("unbound_head"))
+				b.Rules = append(b.Rules, r)
+			default:
+				b.Rules = append(b.Rules, s.DrawRule(t, DefaultRuleCfg))
+			}
+		default:
+			addFact(s.DrawFact(t))
+		}
+	}
+	if !checkFree && rapid.IntRange(0, 3).Draw(t, "adv.chk") == 0 {
+		b.Checks = s.DrawChecks(t, append(append([]m.Pred{}, tok.Blocks[0].Facts...), b.Facts...), 1, 1, CheckCfg{PSat: 70, MaxQueries: 2})
+	}
+	return b
+}
